@@ -416,6 +416,7 @@ struct Gen {
             def.pol = pi;
             def.meth = mi;
             def.body = first_body + d;
+            def.nonext = r.chance(0.2); // add_function without a next slot
             if (r.chance(0.15))
                 for (int i = 0; i < k; ++i)
                     foc[i] = pick_descendant(mvp[i], true);
